@@ -355,12 +355,53 @@ pub fn extension_maps_canonical(ctx: &'static Ctx, prop: &'static str) {
     }
 }
 
+/// C03(c) near the capacity frontier: whenever the serializer succeeds, the bytes after the
+/// fixed-layout part and the attested credential data must be one canonical CBOR map
+pub fn extension_maps_near_capacity(ctx: &'static Ctx, prop: &'static str) {
+    let bufs = Buffers::new();
+    let exts = ext_choices(true);
+    let ids: Vec<usize> = (480..=600).collect();
+    let rad = [exts.len() as u64 - 1, ids.len() as u64];
+    let (exts2, bufs2, ids2) = (&exts, &bufs, &ids);
+    sweep(ctx, "mc authenticator-data extension map near the 676-byte capacity", product(&rad), "every extension choice x credential-id length 480..=600 (aaguid 16, public key 77): a successful result must end in one complete canonical map", move |idx, l| {
+        let mut d = [0u64; 2];
+        unrank(idx, &rad, &mut d);
+        let c = Case { mc: true, flags: 0xc1, count: 9, attested: true, aaguid: 16, id: ids2[d[1] as usize], pk: 77, ext: exts2[d[0] as usize + 1].clone() };
+        l.nontrivial += 1;
+        let v = match observed(&c, bufs2) {
+            Err(p) => Verdict::fail(format!("{}|authdata|panic", prop), "no panic", p),
+            Ok(None) => {
+                l.bump("rejected (beyond capacity)");
+                Verdict::pass()
+            }
+            Ok(Some(b)) => {
+                l.bump("extension map checked");
+                let off = 37 + 16 + 2 + c.id + c.pk;
+                if b.len() < off {
+                    Verdict::fail(format!("{}|authdata-mc-extensions|tail-missing", prop), "an extension map", "output shorter than the fixed part")
+                } else {
+                    check_canonical(prop, "authdata-mc-extensions", &b[off..])
+                }
+            }
+        };
+        if !v.ok {
+            l.fail(ctx, idx, v, || case_json(&c));
+        }
+    });
+}
+
 pub fn replay_canonical(case: &Value) -> Verdict {
     let c = case_from(case);
     match observed(&c, &Buffers::new()) {
         Err(p) => Verdict::fail("C03|authdata|panic", "no panic", p),
         Ok(None) => Verdict::fail("C03|authdata|rejected", "Ok", "Err"),
-        Ok(Some(b)) => check_canonical("C03", "authdata-extensions", &b[37..]),
+        Ok(Some(b)) => {
+            let off = if c.attested { 37 + c.aaguid + 2 + c.id + c.pk } else { 37 };
+            if b.len() < off {
+                return Verdict::fail("C03|authdata|tail-missing", "an extension map", "output shorter than the fixed part");
+            }
+            check_canonical("C03", "authdata-extensions", &b[off..])
+        }
     }
 }
 
